@@ -54,6 +54,12 @@ def run(ctx):
             ctx.harness_error('third-party encoder output not accepted by libbz2: ' + name)
             continue
         items.append((name, d, plain, dict(workers=rnd.choice(wsets), env=lbz.sched_env(rnd) if rnd.random() < 0.3 else {})))
+    for i in range(30 if q else 600):
+        data = bs.build([bs.Stream(rnd.randint(1, 9), [bs.maxlen_block(rnd, 9)])])
+        v, info, out = ora.refbz(data)
+        if v == 'VALID':
+            items.append(('synth:maxlen-groups', data, out, dict(opts=['maxlen'], workers=rnd.choice(wsets),
+                                                               env={'LBZIP2_VERIF_IN_GRANUL': str(4 * rnd.randrange(32, 700))})))
     # special corners
     for level in ([1, 9] if q else range(1, 10)):
         nb = level * 100000
